@@ -415,6 +415,21 @@ struct BodyWriter {
       if (V->isStaticLocal()) v["static"] = true;
       if (V->isConstexpr()) v["constexpr"] = true;
       if (V->getTLSKind() != VarDecl::TLS_None) v["tls"] = true;
+      // does the declared type follow the initialiser (auto, decltype, a substituted template parameter) or is it fixed
+      // by the text of the declaration (`const int x = f()` inside a template converts whatever f returns)?
+      if (auto TSI = V->getTypeSourceInfo()) {
+         QualType Q = TSI->getType();
+         bool follows = Q->getContainedDeducedType() != nullptr;
+         for (int guard = 0; !follows and guard < 16; ++guard) {
+            const Type* TP = Q.getTypePtr();
+            if (isa<DecltypeType>(TP) or isa<SubstTemplateTypeParmType>(TP) or isa<TypeOfExprType>(TP)) { follows = true; break; }
+            if (auto RT = dyn_cast<ReferenceType>(TP)) { Q = RT->getPointeeType(); continue; }
+            QualType D = Q.getSingleStepDesugaredType(*C.AC);
+            if (D == Q) break;
+            Q = D;
+         }
+         if (follows) v["follows_init"] = true;
+      }
       if (withInit and V->getInit()) v["init"] = X(V->getInit());
       return v;
    }
@@ -457,7 +472,7 @@ struct BodyWriter {
             // keep the read when the location is computed (call returning a reference, subscript, deref):
             // the value must be taken at this point, not when it is used later
             const Expr* sub = ICE->getSubExpr()->IgnoreParens();
-            if (isa<CallExpr>(sub) or isa<ArraySubscriptExpr>(sub)
+            if (isa<CallExpr>(sub) or isa<ArraySubscriptExpr>(sub) or isa<ConditionalOperator>(sub)
                 or (isa<UnaryOperator>(sub) and cast<UnaryOperator>(sub)->getOpcode() == UO_Deref)) {
                o["k"] = "cast";
                o["ck"] = "LValueToRValue";
